@@ -334,6 +334,10 @@ fn family_unit(tier: Tier, shard: usize, ctx: &mut Ctx) {
         if tier == Tier::Quick {
             ks.retain(|&k| ![7, 31, 33, 66, 129].contains(&k));
         }
+        if n >= 300 {
+            // blocks longer than 255 rows: in-block counts no longer fit a byte
+            ks.extend([256, 257, 300, 511, 512]);
+        }
         ks.retain(|&k| k >= 1);
         ks.sort();
         ks.dedup();
